@@ -12,14 +12,16 @@ use std::collections::BTreeMap;
 pub struct WorldG;
 
 fn gen_set(rng: &mut Rng, keys: &KeyPool, sorted: &[u8]) -> MSet {
-    let n = match rng.weighted(&[3, 3, 4, 3, 2, 1, 1]) {
+    let n = match rng.weighted(&[6, 6, 8, 6, 4, 2, 2, 1]) {
         0 => 1,
         1 => 2,
         2 => 3,
         3 => rng.range(4, 5) as usize,
         4 => rng.range(6, 7) as usize,
         5 => 8,
-        _ => rng.range(9, N_KEYS as u64) as usize,
+        6 => rng.range(9, 12) as usize,
+        // beyond any plausible fixed cap on the number of proof entries (32 in particular)
+        _ => rng.range(31, N_KEYS as u64) as usize,
     };
     // choose n distinct keys, keep public-key order
     let mut chosen: Vec<u8> = sorted.to_vec();
@@ -69,7 +71,7 @@ fn gen_set(rng: &mut Rng, keys: &KeyPool, sorted: &[u8]) -> MSet {
     }
 }
 
-fn subset_weight(set: &MSet, mask: u32) -> u128 {
+fn subset_weight(set: &MSet, mask: u64) -> u128 {
     let mut t: u128 = 0;
     for (i, s) in set.signers.iter().enumerate() {
         if (mask >> i) & 1 == 1 {
@@ -81,12 +83,12 @@ fn subset_weight(set: &MSet, mask: u32) -> u128 {
 
 /// 0 all, 1 minimal prefix, 2 exact-threshold subset, 3 suffix, 4 just
 /// insufficient, 5 nobody, 6 random subset
-fn choose_mask(rng: &mut Rng, set: &MSet, strategy: usize) -> u32 {
+fn choose_mask(rng: &mut Rng, set: &MSet, strategy: usize) -> u64 {
     let n = set.signers.len();
     match strategy {
-        0 => u32::MAX,
+        0 => u64::MAX,
         1 => {
-            let mut m = 0u32;
+            let mut m = 0u64;
             for i in 0..n {
                 m |= 1 << i;
                 if subset_weight(set, m) >= set.threshold {
@@ -97,7 +99,7 @@ fn choose_mask(rng: &mut Rng, set: &MSet, strategy: usize) -> u32 {
         }
         2 => {
             for _ in 0..24 {
-                let m = (rng.next_u64() as u32) & ((1u32 << n) - 1).max(1);
+                let m = rng.next_u64() & ((1u64 << n) - 1).max(1);
                 if subset_weight(set, m) == set.threshold {
                     return m;
                 }
@@ -105,7 +107,7 @@ fn choose_mask(rng: &mut Rng, set: &MSet, strategy: usize) -> u32 {
             choose_mask(rng, set, 1)
         }
         3 => {
-            let mut m = 0u32;
+            let mut m = 0u64;
             for i in (0..n).rev() {
                 m |= 1 << i;
                 if subset_weight(set, m) >= set.threshold {
@@ -115,7 +117,7 @@ fn choose_mask(rng: &mut Rng, set: &MSet, strategy: usize) -> u32 {
             m
         }
         4 => {
-            let mut m = 0u32;
+            let mut m = 0u64;
             for i in 0..n {
                 if subset_weight(set, m | (1 << i)) >= set.threshold {
                     break;
@@ -125,7 +127,7 @@ fn choose_mask(rng: &mut Rng, set: &MSet, strategy: usize) -> u32 {
             m
         }
         5 => 0,
-        _ => (rng.next_u64() as u32) & ((1u32 << n) - 1),
+        _ => rng.next_u64() & ((1u64 << n) - 1),
     }
 }
 
@@ -153,7 +155,7 @@ fn honest_proof(rng: &mut Rng, pool: &[MSet], set: usize, allow_subsets: bool) -
     };
     let mut mask = choose_mask(rng, &pool[set], strat);
     if subset_weight(&pool[set], mask) < pool[set].threshold {
-        mask = u32::MAX;
+        mask = u64::MAX;
     }
     ProofSpec {
         set: set as u8,
@@ -187,7 +189,7 @@ fn faulty_proof(rng: &mut Rng, pool: &[MSet], set: usize, t: &Toggles) -> ProofS
                 _ => Tamper::AsOtherSet { j: rng.below(pool.len() as u64) as u8 },
             };
             if matches!(p.tamper, Tamper::Dup { .. } | Tamper::DupMany { .. } | Tamper::DupInflated { .. }) {
-                p.mask = u32::MAX;
+                p.mask = u64::MAX;
             }
             // the realistic tampering: the signers signed honestly for the registered set
             // and somebody altered the declaration afterwards (so the signatures are over
@@ -773,9 +775,9 @@ impl World for WorldG {
                         out.push(GOp::Approve { gw: *gw, proof: proof.clone(), msgs: m, abort: *abort });
                     }
                 }
-                if proof.mask != u32::MAX {
+                if proof.mask != u64::MAX {
                     let mut p = proof.clone();
-                    p.mask = u32::MAX;
+                    p.mask = u64::MAX;
                     out.push(GOp::Approve { gw: *gw, proof: p, msgs: msgs.clone(), abort: *abort });
                 }
             }
